@@ -19,6 +19,8 @@ struct FrameT {
     int gen = 1;
     int trunc = -1;      // -1: none, else length 0..MTU
     int pad_to_mtu = 0;  // 1: extend the frame with filler up to MTU (everything a count could index is "received")
+    int pad_fill = 0;    // filler: 0 = 0x5C bytes, 1 = 0x5C with a partial copy of the receiving station's own address in the incomplete slot at the very end of the buffer, 2 = zero bytes, 3 = the own address over and over
+    int ethertype = -1;  // -1: LLTD's 0x88D9; else this value (VLAN tag 0x8100, 0x88A8, IPv4, byte-swapped LLTD ...): frames the daemons' filters may or may not have kept away
     std::vector<std::pair<int, int>> mut;   // (position, value)
     Bytes raw;
 };
@@ -39,7 +41,7 @@ static inline Bytes c01_frame(size_t mtu, const Mac &own, const FrameT &t) {
     switch (t.tmpl) {
         case 0: {
             std::vector<Mac> st;
-            for (int i = 0; i < t.carried; i++) st.push_back(i == t.carried / 2 ? own : mac_from_u64(0x0600BB000000ULL + (uint64_t)i));
+            for (int i = 0; i < t.carried; i++) st.push_back(i == t.carried / 2 && !(t.count_any & 1) ? own : mac_from_u64(0x0600BB000000ULL + (uint64_t)i));   // own address listed in half of the cases
             f = mk_discover(eth, real, (uint8_t)t.tos, (uint16_t)t.seq, (uint16_t)t.gen, st, count(6, 36));
             break;
         }
@@ -57,7 +59,13 @@ static inline Bytes c01_frame(size_t mtu, const Mac &own, const FrameT &t) {
         case 7: f = mk_simple(dst, eth, (uint8_t)t.tos, (uint8_t)t.opcode, dst, real, (uint16_t)t.seq); break;
         default: f = t.raw; break;
     }
-    if (t.pad_to_mtu && f.size() < mtu) f.resize(mtu, 0x5C);
+    if (t.pad_to_mtu && f.size() < mtu) {
+        size_t from = f.size();
+        f.resize(mtu, t.pad_fill == 2 ? 0x00 : 0x5C);
+        if (t.pad_fill == 1) { size_t tail = (mtu - from) % 6; for (size_t i = mtu - tail; i < mtu; i++) f[i] = own.b[i - (mtu - tail)]; }   // only the partial slot at the very end
+        if (t.pad_fill == 3) for (size_t i = from; i < mtu; i++) f[i] = own.b[(i - from) % 6];
+    }
+    if (t.ethertype >= 0 && f.size() >= 14) { f[12] = (uint8_t)(t.ethertype >> 8); f[13] = (uint8_t)t.ethertype; }
     for (auto &m : t.mut) if (!f.empty()) f[(size_t)m.first % f.size()] = (uint8_t)m.second;
     if (t.trunc >= 0 && (size_t)t.trunc < f.size()) f.resize((size_t)t.trunc);
     if (f.size() > mtu) f.resize(mtu);
